@@ -1,22 +1,26 @@
+import ShVerif.Model.C06
 import ShVerif.Gen.C06
 /-
   C06 — Parsing and printing never crash or hang.  Table obligations (regenerated from the source
-  on every run): the type switches that every parsed tree flows through when it is printed or
-  walked cover every implementer of the interface they range over, so their `panic`/silent default
-  is unreachable for parser-produced trees.  Whole-parser panic freedom and linear time are
-  explored by the harness's fuzz leg, not proved.
+  on every run):
+   * the type switches every parsed tree flows through when it is printed, simplified, walked or
+     encoded cover every implementer of the interface they range over that the parser can
+     produce, or have a default that does not panic;
+   * the index and slice expressions of that code are syntactically guarded (a length test of the
+     very slice on every path, a range loop …), or are listed here with the reason they are in
+     range: a clause of the tree well-formedness predicate `wfNode` (which the harness checks on
+     every tree the parser returns, RecoverErrors trees included, and ties to the real
+     `Pos()`/`End()` methods by making nodes ill-formed on purpose), or a spelled-out invariant
+     of printer-local state.
+  Whole-parser panic freedom and linear time are explored by the harness's fuzz leg, not proved;
+  the index safety of the byte-source layer (`p.bs[p.bsp…]`, newLit/endLit) is the L2 obligation
+  `bytesrc_no_panic`, stated at the end and owned by C07's package.
 -/
 namespace ShVerif.C06
 open ShVerif.Gen.C06
 
 /-- Node types the parser never produces (BraceExp appears only after brace splitting). -/
 def notProduced : List String := ["BraceExp"]
-
-/-- The switches that must be exhaustive, with the interface they range over. -/
-def mustCover : List (String × String) :=
-  [("Printer.command", "Command"), ("Printer.wordPart", "WordPart"), ("Printer.loop", "Loop"),
-   ("Printer.arithmExprRecurse", "ArithmExpr"), ("Printer.testExprSameLine", "TestExpr"),
-   ("Walk", "Node")]
 
 def implOf (i : String) : List String :=
   match implementers.find? (·.1 == i) with
@@ -28,15 +32,69 @@ def casesOf (f : String) : Option (List String) :=
   | some (_, _, _, cs, _) => some cs
   | none => none
 
-/-- Each listed switch exists and has a case for every implementer the parser can produce. -/
+/-! ### switches -/
+
+/-- The files whose code consumes parser-produced trees. -/
+def consumerFiles : List String := ["printer.go", "simplify.go", "walk.go", "typedjson/json.go"]
+
+/-- Every type switch of those files with the interface it ranges over; "-" = not a syntax
+    interface (typedjson switches over decoded JSON values; encoding goes through reflection). -/
+def switchIface : List (String × String × String) :=
+  [("Printer.Print", "node.(type)", "Node"),
+   ("Printer.wordPart", "wp.(type)", "WordPart"),
+   ("Printer.loop", "loop.(type)", "Loop"),
+   ("Printer.arithmExprRecurse", "expr.(type)", "ArithmExpr"),
+   ("Printer.testExprSameLine", "expr.(type)", "TestExpr"),
+   ("Printer.unquotedWord", "wp.(type)", "WordPart"),
+   ("Printer.command", "cmd.(type)", "Command"),
+   ("startsWithLparen", "node.(type)", "Node"),
+   ("endsWithRparen", "node.(type)", "Node"),
+   ("simplifier.visit", "node.(type)", "Node"),
+   ("simplifier.removeNegateTest", "u.X.(type)", "TestExpr"),
+   ("Walk", "node.(type)", "Node"),
+   ("jsonTypeName", "enc.(type)", "-"),
+   ("decodeValue", "enc.(type)", "-")]
+
+def ifaceOf (f on : String) : Option String :=
+  match switchIface.find? (fun e => e.1 == f && e.2.1 == on) with
+  | some (_, _, i) => some i
+  | none => none
+
+/-- a case covers type `t` when it names `t` or an interface `t` implements -/
+def covers (cs : List String) (t : String) : Bool :=
+  cs.contains t || cs.any (fun c => (implOf c).contains t)
+
+def allSwitches : List (String × String × String × List String × String) := switches ++ tjSwitches
+
+/-- Every type switch in printer.go, simplify.go, walk.go and typedjson/json.go is known, and
+    either does not panic in its default (no default clause, or one that returns an error), or has
+    a case for every implementer of its interface that the parser can produce. -/
 theorem switch_exhaustive :
+    (allSwitches.filter (fun s => consumerFiles.contains s.1)).all (fun (_, f, on, cs, dflt) =>
+      match ifaceOf f on with
+      | none => false
+      | some "-" => dflt != "panic"
+      | some i => !(implOf i).isEmpty &&
+          (dflt != "panic" || (implOf i).all (fun t => covers cs t || notProduced.contains t))) = true
+    ∧ switchIface.all (fun e => allSwitches.any (fun s => s.2.1 == e.1 && s.2.2.1 == e.2.1 && consumerFiles.contains s.1)) = true := by
+  decide +kernel
+
+/-- The switches that must be *total* (a silently skipped case would lose output or children),
+    with the interface they range over. -/
+def mustCover : List (String × String) :=
+  [("Printer.command", "Command"), ("Printer.wordPart", "WordPart"), ("Printer.loop", "Loop"),
+   ("Printer.arithmExprRecurse", "ArithmExpr"), ("Printer.testExprSameLine", "TestExpr"),
+   ("Walk", "Node")]
+
+/-- Each of them exists and has a case for every implementer the parser can produce. -/
+theorem print_walk_switches_total :
     mustCover.all (fun (f, i) =>
       match casesOf f with
       | some cs => !(implOf i).isEmpty && (implOf i).all (fun t => cs.contains t || notProduced.contains t)
       | none => false) = true := by
   decide +kernel
 
-/-- No switch has a case for a type that does not implement the interface it ranges over
+/-- No such switch has a case for a type that does not implement the interface it ranges over
     (a renamed or removed node type is noticed). -/
 theorem switch_cases_known :
     mustCover.all (fun (f, i) =>
@@ -44,5 +102,72 @@ theorem switch_cases_known :
       | some cs => cs.all (fun t => (implOf i).contains t)
       | none => false) = true := by
   decide +kernel
+
+/-! ### index sites -/
+
+/-- The index/slice expressions without a syntactic guard: (function, indexed expression, why it
+    is in range). -/
+def expectedUnguarded : List (String × String × Why) :=
+  [("CallExpr.Pos", "c.Args", .wf "CallExpr"),          -- reached only when len(c.Assigns) == 0
+   ("CallExpr.End", "c.Assigns", .wf "CallExpr"),       -- reached only when len(c.Args) == 0
+   ("Word.Pos", "w.Parts", .wf "Word"),
+   ("Word.End", "w.Parts", .wf "Word"),
+   ("CaseItem.Pos", "c.Patterns", .wf "CaseItem"),
+   ("LetClause.End", "l.Exprs", .wf "LetClause"),
+   ("BraceExp.Pos", "b.Elems", .wf "BraceExp"),
+   ("Printer.wordParts", "wps", .wf "Word"),            -- evaluated only with quoted = false: the callers pass Word.Parts
+   ("Printer.decLevel", "p.levelIncs", .inv "incLevel appends one entry, decLevel removes one; they are called in matched pairs around nested blocks"),
+   ("Printer.stmt", "s.Redirs", .inv "startRedirs is an index returned by printRedirsUntil, a loop index over the same slice, hence ≤ len"),
+   ("Printer.printRedirsUntil", "redirs", .inv "startRedirs is the previous result of this function on the same slice, hence ≤ len"),
+   ("decodePos", "nums", .inv "nums is an array of len(posFieldNames) = 3 elements indexed by the range key of posFieldNames and by 0, 1, 2"),
+   ("decodeValue", "nodeByName", .inv "a map lookup; a missing key yields nil, not a panic")]
+
+def siteExpected (f base : String) : Bool := expectedUnguarded.any (fun e => e.1 == f && e.2.1 == base)
+
+/-- Every index or slice expression in nodes.go, printer.go, simplify.go, walk.go and
+    typedjson/json.go is guarded syntactically or justified in `expectedUnguarded`; every
+    justification by well-formedness names a clause of `wfReq`; no expectation is stale. -/
+theorem index_sites_guarded :
+    indexSites.all (fun (_, f, base, _, _, guard, _) => guard != "none" || siteExpected f base) = true
+    ∧ expectedUnguarded.all (fun e =>
+        match e.2.2 with
+        | .wf t => wfReq.any (·.1 == t)
+        | .inv _ => true) = true
+    ∧ expectedUnguarded.all (fun e =>
+        indexSites.any (fun (_, f, base, _, _, guard, _) => guard == "none" && f == e.1 && base == e.2.1)) = true := by
+  decide +kernel
+
+/-- non-vacuity: the table holds the node-method sites the WF predicate is about, and guarded ones -/
+theorem index_sites_nonvacuous :
+    indexSites.length ≥ 40
+    ∧ ["Word.Pos", "Word.End", "CallExpr.Pos", "CallExpr.End", "LetClause.End", "CaseItem.Pos"].all
+        (fun f => indexSites.any (fun s => s.2.1 == f)) = true
+    ∧ ["len", "range", "none"].all (fun g => indexSites.any (fun s => s.2.2.2.2.2.1 == g)) = true := by
+  decide +kernel
+
+/-! ### the well-formedness predicate -/
+
+/-- `wfNode` demands exactly a non-empty list: a node type without a clause is always well-formed,
+    a `Word` is well-formed iff it has a part, a `CallExpr` iff it has an assignment or an argument. -/
+theorem wfNode_word (n : Nat) : wfNode "Word" [("Parts", n)] = decide (n > 0) := by
+  simp [wfNode, wfReq, lenOf]
+
+theorem wfNode_call (a b : Nat) :
+    wfNode "CallExpr" [("Assigns", a), ("Args", b)] = (decide (a > 0) || decide (b > 0)) := by
+  simp [wfNode, wfReq, lenOf]
+
+theorem wfNode_other (lens : List (String × Nat)) : wfNode "IfClause" lens = true := by
+  simp [wfNode, wfReq]
+
+/-! ### stated only -/
+
+/-- Owned by the byte-source layer L2 (lean/ShVerif/Model/L2ByteSrc.lean, property C07; its
+    proofs were still in progress when this package was written, so it is not imported):
+    for the relation `faults input sched prog` = "running the client program `prog` — any
+    sequence of rune/peek/peekTwo/newLit/endLit/nextPos/errPass calls that respects the
+    newLit…endLit protocol — over `input` delivered in chunks `sched` makes a primitive index its
+    buffer out of range (`p.bs[p.bsp-w:]`, `len(litBs)-p.w`, `isLitRedir`)", no run faults. -/
+def bytesrc_no_panic_statement {Prog : Type} (faults : List UInt8 → List Nat → Prog → Prop) : Prop :=
+  ∀ (input : List UInt8) (sched : List Nat) (prog : Prog), ¬ faults input sched prog
 
 end ShVerif.C06
